@@ -71,8 +71,10 @@ func normalizeAndTokenize(s string) []string {
 	if s == "" {
 		return nil
 	}
-	// Normalize similarly to NLP pipeline, then lowercase
-	s = nlp.NormalizeText(s)
+	// Lowercase first (a capital such as U+212A KELVIN SIGN lower-cases to an ASCII
+	// letter that the normalization below would otherwise strip), then normalize
+	// similarly to the NLP pipeline
+	s = nlp.NormalizeText(strings.ToLower(s))
 	lower := strings.ToLower(s)
 	words := strings.FieldsFunc(lower, func(r rune) bool { return !unicode.IsLetter(r) && !unicode.IsNumber(r) })
 
